@@ -447,3 +447,17 @@ impl Distinct {
         self.set.lock().unwrap().len()
     }
 }
+
+/// Resident set size of this process in GiB (0 if unknown).
+pub fn rss_gb() -> f64 {
+    std::fs::read_to_string("/proc/self/statm")
+        .ok()
+        .and_then(|s| s.split_whitespace().nth(1).and_then(|p| p.parse::<f64>().ok()))
+        .map(|pages| pages * 4096.0 / (1u64 << 30) as f64)
+        .unwrap_or(0.0)
+}
+
+/// Memory cap for explorers (GiB); layers are finished, then the search stops and reports the cap.
+pub fn rss_cap_gb() -> f64 {
+    std::env::var("VERIF_RSS_CAP_GB").ok().and_then(|s| s.parse().ok()).unwrap_or(16.0)
+}
